@@ -73,14 +73,37 @@ pub fn new_net() -> Net {
     Net { tx, rx, maindevice, frames: 0 }
 }
 
+struct WokenFlag(std::sync::atomic::AtomicBool);
+impl std::task::Wake for WokenFlag {
+    fn wake(self: std::sync::Arc<Self>) {
+        self.0.store(true, std::sync::atomic::Ordering::SeqCst);
+    }
+    fn wake_by_ref(self: &std::sync::Arc<Self>) {
+        self.0.store(true, std::sync::atomic::Ordering::SeqCst);
+    }
+}
+thread_local! {
+    static TX_WOKEN: std::sync::Arc<WokenFlag> = std::sync::Arc::new(WokenFlag(std::sync::atomic::AtomicBool::new(false)));
+}
+
 /// Poll `fut` to completion, answering every frame it sends. `None` = the future is pending
 /// although nothing was sent (stuck), which is reported by the callers.
 pub fn drive<F: Future>(mut fut: Pin<&mut F>, net: &mut Net, r: &mut dyn Responder) -> Option<F::Output> {
+    TX_WOKEN.with(|f| {
+        f.0.store(false, std::sync::atomic::Ordering::SeqCst);
+        net.tx.replace_waker(&std::task::Waker::from(f.clone()));
+    });
     for _ in 0..1_000_000 {
         if let Poll::Ready(v) = poll_once(fut.as_mut()) {
             return Some(v);
         }
         let mut any = false;
+        // like a real TX task (`tx_rx_task`): look for sendable frames only after `wake_sender()`
+        // woke the registered waker; a frame marked sendable without a wake-up stays unsent (-> stuck)
+        if !TX_WOKEN.with(|f| f.0.swap(false, std::sync::atomic::Ordering::SeqCst)) {
+            return None;
+        }
+        TX_WOKEN.with(|f| net.tx.replace_waker(&std::task::Waker::from(f.clone())));
         while let Some(sf) = net.tx.next_sendable_frame() {
             let mut bytes = Vec::new();
             let _ = sf.send_blocking(|b| {
